@@ -60,4 +60,23 @@ PROPS = {
                      "regime: proved for conflict-free proposal sets (C04's quantifier) with the exclusion zone inside "
                      "the inclusion range (documented SystemBounds invariant)"],
     ),
+    "C11": dict(
+        modules=PM_MODULES + ["pm_actor"],
+        contracts=[
+            f"{MAT}.calculate_target_power#c11",
+            f"{MAT}.get_target_power",
+            f"{PM}._power_managing_actor:PowerManagingActor._calculate_shifted_bounds",
+            f"{PM}._power_managing_actor:PowerManagingActor._calculate_target_power",
+        ],
+        lemmas=[],
+        bounded=[],
+        level="proof",
+        explanation="_calculate_target_power is verified against Matryoshka.calculate_target_power's contract (None = stored "
+                    "target unchanged; returned value = stored target; stored target inside the bounds it was computed "
+                    "against): the value to send equals stored regular target + stored operating-point target and lies in "
+                    "the system inclusion bounds, in all three branches.",
+        assumptions=[REALS, EXTRACTION,
+                     "history quantifier: carried by the class invariant 'a stored target has a bucket' (required, and "
+                     "proved preserved) - every event handler funnels into _calculate_target_power"],
+    ),
 }
